@@ -239,17 +239,21 @@ nni_listener_init(nni_listener *l, nni_sock *s, nni_sp_tran *tran)
 
 	rv = l->l_ops.l_init(lp, &l->l_url, l);
 
-	if (rv == 0) {
-		rv = nni_sock_add_listener(s, l);
-	}
-
+	// The id must exist before the socket can see (and close) the
+	// endpoint, or a concurrent socket close would leave a closed
+	// endpoint registered under its id.
 	if (rv == 0) {
 		nni_mtx_lock(&listeners_lk);
 		rv = nni_id_alloc32(&listeners, &l->l_id, l);
 		nni_mtx_unlock(&listeners_lk);
+	}
+
+	if (rv == 0) {
+		rv = nni_sock_add_listener(s, l);
 		if (rv != 0) {
-			// do not leave it on the socket's list
-			nni_sock_remove_listener(l);
+			nni_mtx_lock(&listeners_lk);
+			nni_id_remove(&listeners, l->l_id);
+			nni_mtx_unlock(&listeners_lk);
 		}
 	}
 
